@@ -1,6 +1,7 @@
 """
 C11  Closing a TCP endpoint releases every socket it opened.
 """
+import errno
 from .. import netlab
 from ..core import Result, digest
 
@@ -9,7 +10,7 @@ ENGINE = "net"
 LEVEL = "exploration"
 RULE = ("Each case draws a history of up to 40 (thorough 120) operations on a real hio Server/ServerTls and 2-3 Clients/ClientTls on the "
         "fake kernel: client service (connect / handshake progress), client reopen, client close, client abandons a connection "
-        "(close so the server side is cut off), server service, net delivery, server close, server reopen, a burst of full service rounds (so connects and TLS handshakes complete); every history ends with a server close. Client ports come from "
+        "(close so the server side is cut off), server service, net delivery, server close, server reopen, server reopen whose bind() fails (EADDRINUSE / EADDRNOTAVAIL / EACCES), a burst of full service rounds (so connects and TLS handshakes complete); every history ends with a server close. Client ports come from "
         "a pool of two, so a new connection regularly arrives from the same (host, port) while the old Remoter is still in the "
         "server's table; TLS clients are left mid-handshake by simply not servicing them. Oracle, evaluated after every close in "
         "the history: after server.close() no socket the server created or accepted (listen, accepted, TLS-wrapped) is open in "
@@ -20,7 +21,7 @@ COMPONENTS = dict(real=["hio.core.tcp.serving.Server/ServerTls/Remoter/RemoterTl
                   stub=["kernel sockets with open/closed accounting (FakeSocket)"])
 ASSUMPTIONS = ["a socket counts as released when close() was called on it (the fake kernel's descriptor table)"]
 PROBES = ["server_close_with_pending_handshake", "server_close_after_replacement", "server_close_with_established", "client_reopen_while_connected",
-          "same_address_replacement", "server_reopen", "tls_established_replaced_after_handshake"]
+          "same_address_replacement", "server_reopen", "tls_established_replaced_after_handshake", "server_reopen_bind_failed"]
 BOUNDS = dict(quick=dict(ops=40, clients=3), thorough=dict(ops=120, clients=3))
 TIERS = dict(quick=dict(cases=12000, wall=40.0), thorough=dict(cases=250000, wall=400.0))
 SIM_TIME_UNIT = "net steps"
@@ -43,7 +44,7 @@ def run_case(tape, tier):
         server_open = True
         nontriv = False
         W = [("svc_client", 6), ("svc_server", 6), ("net", 4), ("client_reopen", 2), ("client_close", 2),
-             ("server_close", 1), ("server_reopen", 2), ("client_tx", 1), ("rounds", 3)]
+             ("server_close", 1), ("server_reopen", 2), ("client_tx", 1), ("rounds", 3), ("server_reopen_bind_fails", 1)]
         names = [w[0] for w in W]
         weights = [w[1] for w in W]
 
@@ -174,6 +175,21 @@ def run_case(tape, tier):
                 server_open = False
                 if server_close_and_check():
                     break
+            elif op == "server_reopen_bind_fails":
+                # bind() of the new listen socket fails (address in use / not available / no permission): reopen() reports
+                # failure, and the socket it created for the attempt must not stay open
+                net.bind_fail = [errno.EADDRINUSE, errno.EADDRNOTAVAIL, errno.EACCES][i % 3]
+                ok = lab.as_owner("server", lab.server.reopen)
+                net.bind_fail = None
+                server_open = bool(ok)
+                res.probes["server_reopen_bind_failed"] += 1
+                res.comparisons += 1
+                lst = [s for s in open_of("server") if s.state != "connected"]
+                if not ok and lst:
+                    res.violate("server-socket-leak", "server.reopen() failed at bind() and left %d unconnected socket(s) of the server open" % len(lst))
+                    break
+                if not ok and tape.flag("reopen_again", 2, 3):
+                    server_open = bool(lab.as_owner("server", lab.server.reopen))
             elif op == "server_reopen":
                 ok = lab.as_owner("server", lab.server.reopen)
                 server_open = bool(ok)
